@@ -109,25 +109,38 @@ def exists_before_create(ct, rep, rule="exists-before-create"):
 
 
 def open_checks(ct, cd, rep, rule="open-checks"):
+    from ..facts import path_returns
     init = ct.prog.need_method(ct.tdf, "__init__")
-    cfg = CFG(init.node)
-    guards = [st for st in walk_no_nested(init.node) if isinstance(st, ast.If) and st.body and isinstance(st.body[-1], ast.Raise)]
-    g = None
-    for st in guards:
-        t = norm(st.test).replace(" ", "")
-        e = st.body[-1].exc
-        e = norm(e.func if isinstance(e, ast.Call) else e)
-        if t.startswith("not") and t.endswith(".exists()") and e == "FileNotFoundError":
-            g = st
-    if g is None:
-        rep.fail(rule, ct.mod.path.name, "Tdf.__init__", init.node, "opening a path that does not exist is not refused with FileNotFoundError", construct="Tdf.__init__ existence check")
-    else:
-        # the tested path is the one stored
-        tested = g.test.operand.func.value if isinstance(g.test, ast.UnaryOp) else None
-        if tested is not None and norm(tested) == "self.file_path":
-            rep.ok(rule, "Tdf.__init__: FileNotFoundError when self.file_path does not exist", nontrivial=True)
+    # path summaries of __init__: the paths that complete have found the stored path present; when it is absent the
+    # constructor ends in FileNotFoundError
+    stored = set()
+    refusals = []
+    completes_unchecked = []
+    paths = path_returns(init.node)
+    for pe in paths:
+        for e in pe.effects:
+            if isinstance(e, ast.Assign) and any(norm(t) == "self.file_path" for t in e.targets):
+                stored.add(norm(e.value))
+    for pe in paths:
+        tests = [(_exists_test(t)[0], _exists_test(t)[1] == pol) for t, pol in pe.guards if _exists_test(t)[0] is not None]
+        if pe.kind == "raise":
+            exc = pe.value.func if isinstance(pe.value, ast.Call) else pe.value
+            for ptxt, present in tests:
+                if not present:
+                    refusals.append((ptxt, norm(exc) if exc is not None else "", pe.node))
         else:
-            rep.fail(rule, ct.mod.path.name, "Tdf.__init__", g, f"existence is tested on `{norm(tested)}`, not on the stored path")
+            if not any(present and (ptxt == "self.file_path" or ptxt in stored) for ptxt, present in tests):
+                completes_unchecked.append(pe)
+    on_stored = [r for r in refusals if r[0] == "self.file_path" or r[0] in stored]
+    if completes_unchecked or not refusals:
+        rep.fail(rule, ct.mod.path.name, "Tdf.__init__", init.node, "opening a path that does not exist is not refused with FileNotFoundError", construct="Tdf.__init__ existence check")
+    elif not on_stored:
+        rep.fail(rule, ct.mod.path.name, "Tdf.__init__", refusals[0][2], f"existence is tested on `{refusals[0][0]}`, not on the stored path")
+    elif any(r[1] != "FileNotFoundError" for r in on_stored):
+        bad = next(r for r in on_stored if r[1] != "FileNotFoundError")
+        rep.fail(rule, ct.mod.path.name, "Tdf.__init__", bad[2], "opening a path that does not exist is not refused with FileNotFoundError", construct="Tdf.__init__ existence check")
+    else:
+        rep.ok(rule, "Tdf.__init__: FileNotFoundError when self.file_path does not exist", nontrivial=True)
     # signature check precedes every decoded field
     hu = cd.header
     R = normalise(hu.rterms, "r")
